@@ -19,7 +19,8 @@ const (
 
 // St is one stage of a generated pipeline.
 type St struct {
-	Name     string   `json:"name"`
+	Name     string   `json:"name"`         // stage name: unique within its pipeline only
+	ID       string   `json:"id,omitempty"` // task name: unique in the whole case (the controlled Runner's key)
 	Deps     []string `json:"deps,omitempty"`
 	Outcome  int      `json:"outcome"`
 	CondTrue bool     `json:"cond_true,omitempty"` // has a condition that holds
@@ -114,8 +115,8 @@ func (m *model) step() (started []string) {
 					m.st[s.Name] = mRun
 					changed = true
 					if s.Nested == nil {
-						started = append(started, s.Name)
-						m.ran[s.Name] = true
+						started = append(started, s.ID)
+						m.ran[s.ID] = true
 					}
 				}
 			case mRun:
@@ -155,35 +156,46 @@ func (m *model) failed() bool {
 	return false
 }
 
-// finish records the end of leaf task name with its generated outcome.
-func (m *model) finish(name string) bool {
-	if s, ok := m.byName[name]; ok && s.Nested == nil {
-		switch s.Outcome {
-		case OK, FailAllow:
-			m.st[name] = mDone
-		case Fail:
-			m.st[name] = mErr
-		}
-		return true
+// finish records the end of the leaf task with the given id with its generated outcome.
+func (m *model) finish(id string) bool {
+	mm, s := m.find(id)
+	if s == nil || s.Nested != nil {
+		return false
 	}
-	for _, sm := range m.sub {
-		if sm.finish(name) {
-			return true
-		}
+	switch s.Outcome {
+	case OK, FailAllow:
+		mm.st[s.Name] = mDone
+	case Fail:
+		mm.st[s.Name] = mErr
 	}
-	return false
+	return true
 }
 
-func (m *model) find(name string) (*model, *St) {
-	if s, ok := m.byName[name]; ok {
-		return m, s
+// find locates a stage by its id.
+func (m *model) find(id string) (*model, *St) {
+	for _, s := range m.g.Stages {
+		if s.ID == id {
+			return m, s
+		}
 	}
 	for _, sm := range m.sub {
-		if mm, s := sm.find(name); s != nil {
+		if mm, s := sm.find(id); s != nil {
 			return mm, s
 		}
 	}
 	return nil, nil
+}
+
+// assignIDs gives every stage without an id one (saved cases of earlier versions had unique names).
+func assignIDs(g *Gr) {
+	for _, s := range g.Stages {
+		if s.ID == "" {
+			s.ID = s.Name
+		}
+		if s.Nested != nil {
+			assignIDs(s.Nested)
+		}
+	}
 }
 
 func (m *model) allRan(into map[string]bool) {
@@ -199,6 +211,9 @@ func (g *Gr) dump() string {
 	var b strings.Builder
 	for _, s := range g.Stages {
 		fmt.Fprintf(&b, "%s%v o=%d", s.Name, s.Deps, s.Outcome)
+		if s.ID != s.Name {
+			fmt.Fprintf(&b, " id=%s", s.ID)
+		}
 		if s.CondTrue {
 			b.WriteString(" cond")
 		}
